@@ -20,7 +20,7 @@ class C14(Check):
     PID = 'C14'
     SHRINK = False
     RULE = ('three streams: (1) mostly-valid specification texts from the renderer (all spellings, intervals with units / constants / begin > end / undeclared '
-            'bound constants, undeclared identifiers, several assertions); (2) token soup: valid texts with tokens deleted, duplicated, swapped, inserted, '
+            'bound constants, undeclared identifiers, several assertions; bounds replaced by identifiers naming a constant, a signal, the specification itself or nothing); (2) token soup: valid texts with tokens deleted, duplicated, swapped, inserted, '
             'truncated, and random token sequences; (3) character pollution: illegal characters, hex/binary literals, unterminated comments, empty text; '
             'each parse under a wall-clock limit; outcome class (ok / RTAMTException / other exception / timeout) and, when accepted, the AST are compared with '
             'the model lexer+parser+visitor checks (Lexer.v, Parser.v, Elab.v); non-trivial = text with >= 5 tokens; distinct by text')
@@ -38,7 +38,10 @@ class C14(Check):
                  'out = xa >= 1 out = xb;', 'out = = xa;', 'out == xa;', 'out = a/b >= 1;', 'out = xa/xb >= 1;', 'out = xa / xb >= 1;', 'out = xa//xb >= 1;',
                  'out = xa.f >= 1;', 'out = 1 >= .5e1;', 'out = always [0,1] [0,1] xa;', 'out = always[0,1 xa;', 'out = always[0;1] xa;', 'out = always[-1,1] xa;',
                  'out = G[0,1] F[0:2] xa -> H O xb;', 'out = always[500ms:2] xa;', 'out = once[3ms:1] xa;', 'out = always[1s:500] xa;', 'out = always[2:500ms] xa;', 'out = always[1:2000ms] xa;',
-                 'out = xa since[700us:5] xb;', 'out = xa unless[1000ms:3000ms] xb;', 'out = xa until[1:3s] xb;', 'out = next[0,1] xa;', 'out = not[0,1] xa;', 'out = xa and[0,1] xb;', 'out = xa S[0,1] xb U[1,1] xa W[0,2] xb;']
+                 'out = xa since[700us:5] xb;', 'out = xa unless[1000ms:3000ms] xb;', 'out = xa until[1:3s] xb;', 'out = next[0,1] xa;', 'out = not[0,1] xa;', 'out = xa and[0,1] xb;', 'out = xa S[0,1] xb U[1,1] xa W[0,2] xb;',
+                 # interval bounds that are identifiers: a declared constant, an unknown name, the name of a signal (declared, or implicitly declared by the operand)
+                 'out = always[0:k1] (xa>=1);', 'out = always[0:xb] (xa>=1);', 'out = once[xa:5] (xa>=1);', 'out = (xa>=0) until[0:w] (w>=1);', 'out = eventually[xa ms:5 ms] (xa>=1);',
+                 'out = once[k1:k1] xa;', 'out = once[k1 s:3 s] xa;', 'out = once[out:3] xa;', 'a = xa >= 1; out = once[0:a] a;', 'out = historically[zz:zz] zz;']
         for t in fixed:
             cases.append({'text': t, 'stream': 'fixed'})
         valid = []
@@ -72,6 +75,15 @@ class C14(Check):
             else:
                 toks[i] = rng.choice(SOUP)
             cases.append({'text': 'out = ' + ' '.join(toks) + ';', 'stream': 'soup'})
+        # a bound replaced by an identifier (constant / signal / sub-specification / unknown name)
+        import re
+        for toks in valid:
+            t = 'out = ' + ' '.join(toks) + ';'
+            nums = [m for m in re.finditer(r'(?<=[\[,:])\s*[0-9.]+', t)]
+            if nums and rng.random() < 0.6:
+                m = rng.choice(nums)
+                t = t[:m.start()] + ' ' + rng.choice(['k1', 'k1', 'xa', 'xb', 'zz', 'out']) + t[m.end():]
+                cases.append({'text': t, 'stream': 'bound-ident'})
         for i in range(nvalid // 3):
             toks = [rng.choice(SOUP) for _ in range(rng.randint(1, 12))]
             cases.append({'text': ' '.join(toks), 'stream': 'soup'})
